@@ -2212,7 +2212,7 @@ class ExpressionEvaluator(Parser):
         elif op == "+":
             return +operand
         elif op == "!":
-            return not operand
+            return np.int64(not operand)
         elif op == "~":
             return ~operand
         else:
@@ -2223,10 +2223,11 @@ class ExpressionEvaluator(Parser):
         """
         Apply the specified binary operator: lhs op rhs
         """
+        # Logical, relational and equality operators yield 0 or 1 (int).
         if op == "||":
-            return lhs or rhs
+            return np.int64(bool(lhs) or bool(rhs))
         elif op == "&&":
-            return lhs and rhs
+            return np.int64(bool(lhs) and bool(rhs))
         elif op == "|":
             return lhs | rhs
         elif op == "^":
@@ -2234,17 +2235,17 @@ class ExpressionEvaluator(Parser):
         elif op == "&":
             return lhs & rhs
         elif op == "==":
-            return lhs == rhs
+            return np.int64(lhs == rhs)
         elif op == "!=":
-            return lhs != rhs
+            return np.int64(lhs != rhs)
         elif op == "<":
-            return lhs < rhs
+            return np.int64(lhs < rhs)
         elif op == "<=":
-            return lhs <= rhs
+            return np.int64(lhs <= rhs)
         elif op == ">":
-            return lhs > rhs
+            return np.int64(lhs > rhs)
         elif op == ">=":
-            return lhs >= rhs
+            return np.int64(lhs >= rhs)
         elif op == "<<":
             return lhs << rhs
         elif op == ">>":
